@@ -357,6 +357,22 @@ def shard(tier, seed, idx, n):
                 continue
             run_call(res, stack, servers, {}, op, a, kw, "nokey")
             res.case((stack, op, repr(a), repr(kw)))
+    # 4c. every operation with only its required arguments: the documented defaults (expire 0, delay 0, the configured
+    #     noreply default) are what goes on the wire
+    for stack, servers in STACKS:
+        for cfg in ({}, {"default_noreply": False}, {"key_prefix": b"px:"}):
+            for op, a in (("get", ("k1",)), ("gets", ("k1",)), ("gat", ("k1",)), ("gats", ("k1",)), ("set", ("k1", b"v")),
+                          ("add", ("k1", b"v")), ("replace", ("k1", b"v")), ("append", ("k1", b"v")), ("prepend", ("k1", b"v")),
+                          ("cas", ("k1", b"v", b"7")), ("delete", ("k1",)), ("incr", ("k1", 1)), ("decr", ("k1", 1)),
+                          ("touch", ("k1",)), ("flush_all", ()), ("set_many", ({"k1": b"v", "k2": b"w"},)),
+                          ("delete_many", (["k1", "k2"],)), ("get_many", (["k1", "k2"],)), ("gets_many", (["k1"],))):
+                work += 1
+                if work % n != idx:
+                    continue
+                if not catalogue_supports(stack, op) or (op == "flush_all" and len(servers) > 1):
+                    continue        # (flush_all on several servers is one command per server: not a single intended command)
+                run_call(res, stack, servers, cfg, op, a, {}, "defaults")
+                res.case((stack, len(servers), sorted(cfg.items()), op, "defaults"))
     # 5. sequences of calls on ONE client (validation must not depend on what the client did before), with stats /
     #    cache_memlimit arguments that reuse key tokens in between; prefix-prefixed keys and keys at the prefix boundary
     for stack, servers in STACKS:
